@@ -18,22 +18,37 @@ import fcorr
 import vlib
 
 META = {
-    "text": "Rocq theorems over the reals, for ALL requests, contexts and query times. Evaluation layer (from a "
-            "well-formedness predicate WF on the context alone, both directions of travel): pos/vel at 0 and T are the "
-            "recorded start/end state, queries outside [0,T] hold it, |vel|<=vm everywhere (bell: |acc|<=am, |jer|<=jm), "
-            "pos/vel(/acc) agree with adjacent polynomial pieces on the CLOSED phase intervals (continuity) and vel is the "
-            "derivative of pos on (0,T) (bell: acc of vel; jer of acc inside phases). Planning layer: the generator "
-            "returning t>0 on a feasible request implies WF, with all denominators non-zero and sqrt arguments >= 0 on the "
-            "executed path: all four trapezoid branches; bell: see Properties_C14.v for the branches closed (the rest is "
-            "listed there and the theorem is _partial). Tie: bit-exact binary64 execution of the same Gallina terms vs the C "
-            "(generator incl. the bisection loop, and all evaluation functions at/around every phase boundary).",
+    "text": "Rocq theorems over the reals (coq/Properties_C14.v, 25 theorems), for ALL requests, contexts, query times "
+            "and any number of passes of the double-S bisection loop. Evaluation layer, from a well-formedness predicate on "
+            "the context alone (WFtrap / WFbell: phase durations non-negative and summing to t, hand-over equations; both "
+            "directions of travel, the double-S mirroring is transported by a lemma): pos/vel(/acc) at 0 and t are the "
+            "recorded start/end state; queries outside [0,t] hold it; pos, vel (and acc for the double-S) are continuous "
+            "at every query time, i.e. across every phase boundary (the polynomial pieces coincide with the C's decision "
+            "tree on the CLOSED phase intervals, incl. every collapsed-phase case); vel is the derivative of pos (double-S: "
+            "acc of vel) on (0,t), jer of acc inside each phase; |vel|<=vm at every time (double-S also |acc|<=am, "
+            "|jer|<=jm). Planning layer: generator result t>0 => well-formed context recording the (clamped) request, with "
+            "every divisor non-zero and every sqrt argument >=0 on the executed path: trapezoid, all four branches, on "
+            "requests whose acceleration signs match the direction of travel; double-S, all four cruise variants and all "
+            "three exits of the bisection loop (loop invariant + induction on the model's fuel), peak velocity within vm "
+            "unconditionally, peak accelerations within am unconditionally except for the two single-phase exits where the "
+            "standard double-S feasibility condition is used. C14_trap_property / C14_bell_property compose both layers on "
+            "the generators' outputs. Tie: the same Gallina terms run on Coq's primitive binary64 floats agree BIT FOR BIT "
+            "with the C (generators incl. the bisection loop; all evaluation functions at, one ulp around and between every "
+            "phase boundary).",
     "note": "Trusted: Coq kernel/vm_compute (primitive floats), the standard real-number axioms listed by Print Assumptions; "
             "the 'same term, different NumOps instance' argument between R and binary64; the hand transcription "
-            "coq/C14/TrapDefs.v, BellDefs.v (validated bit for bit against the C on the generated cases only); gcc -O2 "
-            "-ffp-contract=off on x86-64 being IEEE binary64 operation by operation; floating-point rounding is not proved "
-            "(the oracle measures the WF residuals of every C context with a tolerance).",
-    "technique": "Rocq proof over R (nra/field/Coquelicot is_derive, induction on loop fuel) + bit-exact primitive-float "
-                 "model vs C correspondence + numeric WF/limit oracle on the C output",
+            "coq/C14/TrapDefs.v, BellDefs.v (goto-exit as early returns, the do-while as a step function on fuel; "
+            "validated bit for bit against the C on the generated cases only); gcc -O2 -ffp-contract=off on x86-64 being "
+            "IEEE binary64 operation by operation with correctly rounded sqrt. NOT proved: floating-point rounding (the "
+            "oracle measures the well-formedness residuals and sampled limits of every C context with tolerance 1e-7); "
+            "termination of the C loop (the theorems hold for every fuel; running out of fuel is a failure result); that "
+            "a feasible request makes the generators return t>0 (the theorems are conditional on t>0, as the property is). "
+            "In R, sqrt(negative)=0 and x/0=0: the planning theorems prove the radicands non-negative and the divisors "
+            "non-zero, so they do not rest on these conventions.",
+    "technique": "Rocq proof over R (field/nra/lra, Coquelicot is_derive/continuous glued across phase boundaries, loop "
+                 "invariant by induction on fuel) + bit-exact primitive-float model vs C correspondence + numeric "
+                 "well-formedness/limit oracle on the C output",
+    "category": "proof",
 }
 
 H = vlib.VERIF / "harness" / "C14"
@@ -652,7 +667,7 @@ def run(ctx):
     if not ok:
         raise vlib.CheckError("model does not compile: %s" % failed)
     r = random.Random(ctx.subseed("c14"))
-    n = 6000 if ctx.quick else 150000
+    n = 4000 if ctx.quick else 120000
     reqs = [(k, q, aim, k in ("trap", "bell") and finite(*q)) for (k, q, aim) in load_corpus()]
     for _ in range(n):
         q, aim, ok_ = gen_trap(r)
